@@ -13,7 +13,8 @@ Mirrors, function by function, `pkg/ratelimiter/store/k8s/cache_store.go` (`obje
 * Every API call the code makes consumes ONE entry of the fault script (`World.script`), exactly where
   the call is made (`call`): `ok` lets the call through (it may still fail naturally: not found, already
   exists, conflict), the error kinds answer with that error and leave the API untouched, `lost` applies the
-  call and answers with an error (a reply lost after the commit).
+  call and answers with an error (a reply lost after the commit). The API never reports an object it holds
+  as missing: an injected `notFound` on an object means that somebody else has just removed it.
 * `World.trace` records the API after every call: these are the crash points. A crash discards the store
   (cache, flags) — the API at the crash is an element of the trace, and what the next holder of a shard sees
   is `load` of a fresh store on that element.
@@ -99,10 +100,16 @@ def natList (a : Api) : Api × Except Err (List Cond) := (a, .ok a.objs)
 
 /-! ## The world: API, fault script, crash points -/
 
+/-- A crash point: the API after a call, and the name somebody else removed while that call was served (if any). -/
+structure Pt where
+  api : Api
+  voided : Option Str
+deriving DecidableEq, Repr
+
 structure World where
   api : Api
   script : List Fault
-  trace : List Api        -- newest first: the API after every call made so far
+  trace : List Pt        -- newest first: one entry per API call made so far
 
 def faultErr : Fault → Err
   | .notFound => .notFound
@@ -110,28 +117,36 @@ def faultErr : Fault → Err
   | .alreadyExists => .alreadyExists
   | _ => .other
 
-/-- What the API is after a call with natural behaviour `nat` under fault `f`, and what the caller is told. -/
-def applyFault {α : Type} (f : Fault) (nat : Api → Api × Except Err α) (a : Api) : Api × Except Err α :=
-  match f with
-  | .ok => nat a
-  | .lost => ((nat a).1, .error .other)
-  | f => (a, .error (faultErr f))
+/-- What the API is after a call with natural behaviour `nat` under fault `f`, what the caller is told, and the
+    object somebody else removed. `tgt` is the object the call addresses (`none` for POST and LIST).
+    * `ok`: the call is served.
+    * `lost`: the call is served, the reply is lost (the caller sees an error).
+    * `notFound` on a call that addresses an object: the API does not lie — somebody else has just removed the
+      object, and the call is served on what is left (it answers NotFound).
+    * otherwise: the call is not served, the caller sees that error. -/
+def applyFault {α : Type} (f : Fault) (tgt : Option Str) (nat : Api → Api × Except Err α) (a : Api) :
+    (Api × Except Err α) × Option Str :=
+  match f, tgt with
+  | .ok, _ => (nat a, none)
+  | .lost, _ => (((nat a).1, .error .other), none)
+  | .notFound, some n => (nat (a.remove n), some n)
+  | f, _ => ((a, .error (faultErr f)), none)
 
 /-- One API call: consumes one script entry (an exhausted script means `ok`), records the crash point. -/
-def call {α : Type} (nat : Api → Api × Except Err α) (w : World) : World × Except Err α :=
+def call {α : Type} (tgt : Option Str) (nat : Api → Api × Except Err α) (w : World) : World × Except Err α :=
   let f := w.script.headD .ok
-  let r := applyFault f nat w.api
-  ({ api := r.1, script := w.script.tail, trace := r.1 :: w.trace }, r.2)
+  let r := applyFault f tgt nat w.api
+  ({ api := r.1.1, script := w.script.tail, trace := ⟨r.1.1, r.2⟩ :: w.trace }, r.1.2)
 
 /-- `RateLimitConditions().Update(ctx, item, …)`: the REST client refuses an empty name before sending. -/
 def apiUpdate (c : Cond) (w : World) : World × Except Err Cond :=
-  if c.name = [] then (w, .error .other) else call (natUpdate c) w
-def apiCreate (c : Cond) (w : World) : World × Except Err Cond := call (natCreate c) w
+  if c.name = [] then (w, .error .other) else call (some c.name) (natUpdate c) w
+def apiCreate (c : Cond) (w : World) : World × Except Err Cond := call none (natCreate c) w
 def apiGet (n : Str) (w : World) : World × Except Err Cond :=
-  if n = [] then (w, .error .other) else call (natGet n) w
+  if n = [] then (w, .error .other) else call (some n) (natGet n) w
 def apiDelete (n : Str) (w : World) : World × Except Err Unit :=
-  if n = [] then (w, .error .other) else call (natDelete n) w
-def apiList (w : World) : World × Except Err (List Cond) := call natList w
+  if n = [] then (w, .error .other) else call (some n) (natDelete n) w
+def apiList (w : World) : World × Except Err (List Cond) := call none natList w
 
 /-! ## The local cache (`localStore`: cluster ↦ name ↦ condition) -/
 
@@ -301,6 +316,49 @@ def step (st : Store) (op : Op) (w : World) : Store × World × Res :=
   | .stop ord => stop sh st ord w
   | .load => load sh st w
   | .restart s wt => (newStore s wt st.cfg.steps, w, .ok)
+
+/-! ## A call of another goroutine landing inside a running flush
+
+`doSyncLocked` holds the store mutex from its snapshot to its last write, and so do `Delete`, `DeleteUpstream`
+(and every other flush): those wait. `Save` and `Load` do not take it. `flushI`/`stopI` are a flush in whose
+window — after the snapshot, right before entry number `at` of it is written — another goroutine runs one
+whole store call `intr` (granularity: store calls land between two `createOrUpdate`s of the flush). The flush
+goes on with its snapshot. If the flush fails before, or has fewer than `at + 1` entries, the window never opens
+and `intr` does not run. -/
+
+inductive OpI
+  | plain (op : Op)
+  | flushI (ord : List (Str × Str)) (at_ : Nat) (intr : Op)
+  | stopI (ord : List (Str × Str)) (at_ : Nat) (intr : Op)
+deriving Repr
+
+/-- the flush loop with the window: answer of the flush, answer of the intruder (if it ran) -/
+def syncWindow (st : Store) (snap : Loc) (at_ : Nat) (intr : Op) (w : World) :
+    Store × World × Except Err Unit × Option Res :=
+  if snap.length ≤ at_ then
+    match syncAll sh st.cfg.shard st.cfg.steps snap w with
+    | (w, r) => (st, w, r, none)
+  else
+    match syncAll sh st.cfg.shard st.cfg.steps (snap.take at_) w with
+    | (w, .error e) => (st, w, .error e, none)
+    | (w, .ok _) =>
+      match step sh st intr w with
+      | (st', w, ires) =>
+        match syncAll sh st.cfg.shard st.cfg.steps (snap.drop at_) w with
+        | (w, r) => (st', w, r, some ires)
+
+def stepI (st : Store) (op : OpI) (w : World) : Store × World × Res × Option Res :=
+  match op with
+  | .plain op => match step sh st op w with | (st, w, r) => (st, w, r, none)
+  | .flushI ord at_ intr =>
+    match syncWindow sh st (arrange ord st.loc) at_ intr w with
+    | (st, w, .error _, ir) => (st, w, .err .other, ir)
+    | (st, w, .ok _, ir) => (st, w, .ok, ir)
+  | .stopI ord at_ intr =>
+    if st.stopped then (st, w, .ok, none)
+    else match syncWindow sh st (arrange ord st.loc) at_ intr w with
+      | (st, w, .error _, ir) => (st, w, .err .other, ir)
+      | (st, w, .ok _, ir) => ({ st with stopped := true }, w, .ok, ir)
 
 end
 
